@@ -244,6 +244,7 @@ class Fxp():
 
     @property
     def dtype(self):
+        self._update_dtype()    # always what the object is now, in the configured notation
         return self._dtype
 
     # overflow (mirror of config for compatibility)
@@ -314,7 +315,10 @@ class Fxp():
 
         """
         self._update_dtype(notation)    # update dtype
-        return self._dtype
+        dtype = self._dtype
+        if notation is not None:
+            self._update_dtype()        # the attribute stays in the configured notation
+        return dtype
     
     def _qfmt(self):
         return re.compile(r'(s|u|q|uq|qu)(\d+)(\.[+-]?\d+)?')
